@@ -957,6 +957,11 @@ func runN3lite(c *verdict.Ctx) {
 		defer wg.Done()
 		runN3flood(c, dir, &mu)
 	}()
+	wg.Add(1)
+	go func() {
+		defer wg.Done()
+		runN3volume(c, dir, &mu)
+	}()
 	wg.Wait()
 	c.Set("n3.wall_s", time.Since(t0).Seconds())
 	book.mu.Lock()
